@@ -229,7 +229,7 @@ for n in ("r8x32", "sq12"):
 reg("fd_ragged_r8x18", "place", ["C08", "C05"], cap=600, stubbing=True, unwindset=[("btree", 4)],
     bounds="8x18 symbol + 1 / + 17 stray pixels -> DataSize, width 0 -> ZeroWidth; pixel values symbolic", encodes=TFB[:1])
 reg("fd_reject_small", "place", ["C08", "C05"], cap=900, stubbing=True, unwindset=[("btree", 4)],
-    bounds="arrays of 36, 25 and 0 symbolic pixels with widths 0, 5, 6, 12, 3: ZeroWidth / DataSize / SymbolSize exactly; SymbolList::all stubbed to the two smallest sizes", encodes=TFB[:1])
+    bounds="arrays of 36, 25 and 0 symbolic pixels with widths 0, 5, 6, 12, 3: ZeroWidth / DataSize / SymbolSize exactly; size lookup stubbed to the single size 8x18 (every real size has >= 100 modules: stub_consts_ok)", encodes=TFB[:1])
 
 H = [h for h in ALL]
 
